@@ -45,3 +45,12 @@ Print Assumptions C02_any_deviation_rejected.
 From PW Require Import Proofs.Examples.
 Example C02_nonvacuous : exists r, RegAccepted rx_oracles rx_policy rx_cred r.
 Proof. exact reg_example_meets_the_spec. Qed.
+
+(* the members of a registration response that nothing signs (the transports hint, the attachment hint) do not enter the verdict nor the reported record *)
+Definition with_unsigned_reg_members (c : reg_cred) (tr : option (list pystr)) (att : option pystr) : reg_cred :=
+  {| rcr_id := rcr_id c; rcr_raw_id := rcr_raw_id c; rcr_type := rcr_type c; rcr_client_data := rcr_client_data c; rcr_att_obj := rcr_att_obj c;
+     rcr_transports := tr; rcr_attachment := att |}.
+Theorem C02_unsigned_members_do_not_count : forall O P c tr att,
+  verify_reg_rec O P (with_unsigned_reg_members c tr att) = verify_reg_rec O P c.
+Proof. intros. reflexivity. Qed.
+Print Assumptions C02_unsigned_members_do_not_count.
